@@ -4,6 +4,7 @@
    items (all numbers decimal):
      F id name | O id name | P addr psize name | U addr size psize name
      L addr size line file | I depth cline cfile origin k (addr size)*k | W ty addr size psize tag
+     Y bits                       text style from here on: 1 = CRLF line ends (whole file), 2 = upper-case hex, 4 = a leading zero on hex fields
      Z addr size psize name len   a FUNC line longer than MAX_BUFFER_CAPACITY (len >= 163840 padding bytes):
                                   SymbolFile::parse drops it in panic recovery, cur_item stays as it is, so the
                                   sub-records that follow go to the FUNC block that is still open (C09's model:
@@ -49,7 +50,14 @@ let decor = [|
 let name_str (letter : char) (n : z) : string =
   let i = int_of_z n in Printf.sprintf "%c%04d%s" letter i decor.(i mod 8)
 let mflag (n : z) : string = if int_of_z n mod 3 = 0 then "m " else ""
-let hex (v : z) : string = ZA.format "%x" (z_to_zt v)
+(* text style (item Y): 1 = CRLF line ends (whole file), 2 = upper-case hex, 4 = one leading zero (within 16 / 8 digits) *)
+let style = ref 0
+let crlf = ref false
+let hexw (w : int) (v : z) : string =
+  let s = ZA.format (if !style land 2 <> 0 then "%X" else "%x") (z_to_zt v) in
+  if !style land 4 <> 0 && String.length s < w then "0" ^ s else s
+let hex (v : z) : string = hexw 16 v
+let hex8 (v : z) : string = hexw 8 v
 let zbyte = Array.init 256 (fun i -> z_of_int i)
 let zone = z_of_int 1
 let rle_of_string (s : string) : (z * z) list =
@@ -92,6 +100,7 @@ let () =
         let files = ref [] and origins = ref [] and pubs = ref [] and funcs = ref []
         and wfd = ref [] and wfpo = ref [] in
         (* the text, line by line (latest first): (dropped?, run-length encoded line) *)
+        style := 0; crlf := false;
         let text = ref [(false, rle_of_string "MODULE Linux x86_64 ABCD1234 m1")] in
         let emit s = text := (false, rle_of_string s) :: !text in
         (* current FUNC block: header + reversed sub-records *)
@@ -107,18 +116,19 @@ let () =
               cur := None in
         while !pos < n do
           match next () with
+          | "Y" -> style := int_of_string (next ()); if !style land 1 <> 0 then crlf := true
           | "F" -> close (); let id = nz () in let nm = nz () in files := (id, nm) :: !files;
                    emit ("FILE " ^ zs id ^ " " ^ name_str 's' nm)
           | "O" -> let id = nz () in let nm = nz () in origins := (id, nm) :: !origins;
                    emit ("INLINE_ORIGIN " ^ zs id ^ " " ^ name_str 'o' nm)
           | "P" -> close (); let a = nz () in let ps = nz () in let nm = nz () in
                    pubs := { p_addr = a; p_name = nm; p_psize = ps } :: !pubs;
-                   emit ("PUBLIC " ^ mflag nm ^ hex a ^ " " ^ hex ps ^ " " ^ name_str 'p' nm)
+                   emit ("PUBLIC " ^ mflag nm ^ hex a ^ " " ^ hex8 ps ^ " " ^ name_str 'p' nm)
           | "U" -> close (); let a = nz () in let s = nz () in let ps = nz () in let nm = nz () in
                    cur := Some ((a, s, ps, nm), [], []);
-                   emit ("FUNC " ^ mflag nm ^ hex a ^ " " ^ hex s ^ " " ^ hex ps ^ " " ^ name_str 'f' nm)
+                   emit ("FUNC " ^ mflag nm ^ hex a ^ " " ^ hex8 s ^ " " ^ hex8 ps ^ " " ^ name_str 'f' nm)
           | "L" -> let a = nz () in let s = nz () in let ln = nz () in let fl = nz () in
-                   emit (hex a ^ " " ^ hex s ^ " " ^ zs ln ^ " " ^ zs fl);
+                   emit (hex a ^ " " ^ hex8 s ^ " " ^ zs ln ^ " " ^ zs fl);
                    (match !cur with
                     | Some (h, ls, is) -> cur := Some (h, { l_addr = a; l_size = s; l_file = fl; l_line = ln } :: ls, is)
                     | None -> orphan := true)
@@ -126,7 +136,7 @@ let () =
                    let k = int_of_string (next ()) in
                    let rs = List.init k (fun _ -> let a = nz () in let s = nz () in (a, s)) in
                    emit ("INLINE " ^ zs d ^ " " ^ zs cl ^ " " ^ zs cf ^ " " ^ zs og
-                         ^ String.concat "" (List.map (fun (a, s) -> " " ^ hex a ^ " " ^ hex s) rs));
+                         ^ String.concat "" (List.map (fun (a, s) -> " " ^ hex a ^ " " ^ hex8 s) rs));
                    (match !cur with
                     | Some (h, ls, is) ->
                         let is' = List.fold_left (fun acc (a, s) ->
@@ -136,12 +146,12 @@ let () =
           | "Z" -> let a = nz () in let s = nz () in let ps = nz () in let nm = nz () in
                    let len = int_of_string (next ()) in
                    if len < 163840 then failwith "Z must be over-long";
-                   text := (true, rle_of_string ("FUNC " ^ hex a ^ " " ^ hex s ^ " " ^ hex ps ^ " " ^ name_str 'f' nm)
+                   text := (true, rle_of_string ("FUNC " ^ hex a ^ " " ^ hex8 s ^ " " ^ hex8 ps ^ " " ^ name_str 'f' nm)
                                   @ [(zbyte.(Char.code 'x'), z_of_int len)]) :: !text
           | "W" -> close (); let ty = int_of_string (next ()) in
                    let a = nz () in let s = nz () in let ps = nz () in let tg = nz () in
                    let w = { w_addr = a; w_size = s; w_psize = ps; w_tag = tg } in
-                   emit ("STACK WIN " ^ Printf.sprintf "%x" ty ^ " " ^ hex a ^ " " ^ hex s ^ " " ^ hex tg ^ " 0 " ^ hex ps
+                   emit ("STACK WIN " ^ Printf.sprintf "%x" ty ^ " " ^ hex a ^ " " ^ hex8 s ^ " " ^ hex8 tg ^ " 0 " ^ hex8 ps
                          ^ " 0 0 0 " ^ (if ty = 4 then "1 $eip 4 + ^ =" else "0 0"));
                    if ty = 4 then wfd := w :: !wfd else if ty = 0 then wfpo := w :: !wfpo else ()
           | t -> failwith ("bad item " ^ t)
@@ -153,6 +163,9 @@ let () =
           | Panic t -> "P;;" ^ zs t
           | OutOfFuel -> "P;;fuel"
           | _ -> "P;;fail" in
+        let lines_of_text () =
+          let cr = (zbyte.(13), zone) in
+          List.rev_map (fun (d, l) -> (d, if !crlf then l @ [cr] else l)) !text in
         let render st l =
           String.concat ";" (fmt_table st :: List.map (fun ((a, b), g) ->
             "D" ^ fmt_out a ^ "/S" ^ (match b with None -> "-" | Some (i, o) -> zs i ^ ":" ^ fmt_out o)
@@ -166,14 +179,14 @@ let () =
         let ans =
           if !orphan then begin
             (* the record model has no answer here; the text model must reject the text as the parser does *)
-            match table_of_text nm_of_rle tg_of_win (List.rev !text) with
+            match table_of_text nm_of_rle tg_of_win (lines_of_text ()) with
             | Ret None -> "E"
             | Ret (Some _) -> "P;;text-model accepts sub-records without an open FUNC block"
             | r -> "P;;text-model " ^ fail r
           end
           else if !text_budget <= 0 then ans
           else begin
-            let ds = List.rev !text in
+            let ds = lines_of_text () in
             text_budget := !text_budget - List.fold_left (fun n (_, l) -> n + List.length l) 0 ds;
             match table_of_text nm_of_rle tg_of_win ds with
             | Ret (Some st) -> let a2 = from st in if a2 = ans then ans else "P;;text-model " ^ a2
